@@ -106,4 +106,4 @@ def extra_checks(tier, seed):
     if rc != 0:
         res['failures'] = ['exhaustive sweep of band_update_stats over r in [0,2^32): ' + out.strip()[-500:]]
     return res
-EXPLORE = dict(skip_ops=('set_map', 'set_sess', 'set_enum', 'band_set'), ops=('flow', 'tick', 'adv', 'band_hello', 'band_choose', 'band_update', 'band_do_hello', 'st_add'), mtu=False, num={'adv': {1: (0, 70000)}})
+EXPLORE = dict(oracle=False, skip_ops=('set_map', 'set_sess', 'set_enum', 'band_set'), ops=('flow', 'tick', 'adv', 'band_hello', 'band_choose', 'band_update', 'band_do_hello', 'st_add'), mtu=False, num={'adv': {1: (0, 70000)}})
